@@ -293,6 +293,11 @@ func commitProbe(b *sbx.Box) (string, bool) {
 	if r := c.Run("commit", "-m", "probe"); !r.OK() {
 		return r.String(), false
 	}
+	// what the new commit refers to has to be there: trees that an interrupted run stored must not make a later
+	// run skip the objects beneath them
+	if err := Fsck(Observe(c)); err != nil {
+		return "after the commit: " + err.Error(), false
+	}
 	return "", true
 }
 
